@@ -35,7 +35,8 @@ ASSUMPTIONS = ['a cut that loses only the final newline of the report loses '
                'against real children (traces_validated_against_impl)']
 FLOORS = {'crash_cases': 40, 'cut_offsets': 150, 'fake_wellformed': 60,
           'fake_malformed': 40, 'big_volume_cases': 12, 'spawn_failures': 8,
-          'emulator_validated': 4, 'names_compared': 2000}
+          'emulator_validated': 4, 'names_compared': 2000,
+          'chatter_threads_released': 8}
 BATCH_TIMEOUT = 900
 
 HERE = os.path.dirname(os.path.abspath(__file__))
@@ -96,6 +97,9 @@ def cases(tier, seed):
         out.append({'part': 'spawn', 'idx': i, 'wseed': rng.randrange(1 << 30)})
     for i in range(6 if quick else 60):
         out.append({'part': 'realnames', 'idx': i,
+                    'wseed': rng.randrange(1 << 30)})
+    for i in range(10 if quick else 80):
+        out.append({'part': 'chatter', 'idx': i,
                     'wseed': rng.randrange(1 << 30)})
     for i in range(5):
         out.append({'part': 'validate', 'idx': i,
@@ -753,9 +757,70 @@ def run_realnames(case, ctx):
     return [['realnames', sorted(names)]]
 
 
+def run_chatter(case, ctx):
+    """Real children with a worker thread that keeps logging to sys.stderr
+    (whatever that is at the moment) from the layer's tearDown on, i.e. also
+    while the subprocess winds down and writes its report."""
+    import common
+    import gen
+    import vworld
+    rng = random.Random(case['wseed'])
+    prefix = 'vwC%d' % case['idx']
+    line = rng.choice(['worker: still alive\n', '1 0 0\n', 'x y\n',
+                       '0 0 0\n', 'heartbeat 17\n'])
+    go_in = rng.choice(['tearDown', 'tearDown', 'last_test'])
+    hooks = {'setUp': {'beh': 'ok', 'actions': [
+        {'ph': 'body', 'do': 'stderr_chatter', 'text': line,
+         'for_s': rng.choice([0.15, 0.3])}]},
+        'tearDown': {'beh': 'ok', 'actions': [
+            {'ph': 'body', 'do': 'stderr_chatter_go'}]}}
+    layers = [{'name': 'La', 'kind': 'class', 'bases': [], 'hooks': hooks},
+              {'name': 'Lb', 'kind': 'class', 'bases': [],
+               'hooks': {'setUp': 'ok', 'tearDown': 'ok'}}]
+    nf, ne = rng.randint(1, 4), rng.randint(0, 2)
+    ta = [{'name': 'test_f%02d' % i, 'kind': 'fail'} for i in range(nf)]
+    ta += [{'name': 'test_e%02d' % i, 'kind': 'error'} for i in range(ne)]
+    ta += [{'name': 'test_p0', 'kind': 'pass'}]
+    if go_in == 'last_test':
+        ta.append({'name': 'test_zlast', 'kind': 'pass', 'actions': [
+            {'ph': 'tearDown', 'do': 'stderr_chatter_go'}]})
+    tb = [{'name': 'test_b0', 'kind': 'pass'},
+          {'name': 'test_b1', 'kind': 'fail'}]
+    spec = gen.simple_world(prefix, layers, {'La': ta, 'Lb': tb})
+    w = common.run_world(spec, None, {'processes': 2, 'verbose': 1},
+                         mode=rng.choice(['in', 'cli']))
+    ctx.C('chatter_runs')
+    if w.raised is not None:
+        ctx.V('parent-aborted', 'channel-parent-raised',
+              tb=(w.raised_tb or '')[-600:])
+        return [['chatter', line]]
+    if not any(e['k'] == 'chatter.go' for e in w.events):
+        return [['chatter', line]]
+    ctx.C('chatter_threads_released')
+    pv = parent_view(w)
+    ma, mb = spec['modules'][0]['name'], spec['modules'][1]['name']
+    want_f = sorted(['test_f%02d (%s.TestLa.test_f%02d)' % (i, ma, i)
+                     for i in range(nf)] +
+                    ['test_b1 (%s.TestLb.test_b1)' % mb])
+    want_e = sorted('test_e%02d (%s.TestLa.test_e%02d)' % (i, ma, i)
+                    for i in range(ne))
+    want_total = (len(ta) + 2, nf + 1, ne)
+    ctx.C('names_compared', len(want_f) + len(want_e))
+    if pv['fails'] != want_f or pv['errs'] != want_e or \
+            pv['verdict'] is not True or \
+            (pv['total'] or (None,))[:3] != want_total:
+        ctx.V('parent-record-differs-from-what-child-sent',
+              'channel-thread-writes-to-sys-stderr-during-report',
+              line=line, got=pv, want={'fails': want_f, 'errs': want_e,
+                                       'total': want_total},
+              out=w.out[-500:])
+    return [['chatter', line, go_in, nf, ne]]
+
+
 def run_case(case):
     ctx = Ctx()
-    fn = {'crash': run_crash, 'realnames': run_realnames, 'cutscan': run_cutscan, 'fake': run_fake,
+    fn = {'crash': run_crash, 'realnames': run_realnames,
+          'chatter': run_chatter, 'cutscan': run_cutscan, 'fake': run_fake,
           'fakebig': run_fakebig, 'spawn': run_spawn,
           'validate': run_validate}[case['part']]
     sigs = fn(case, ctx)
